@@ -274,7 +274,7 @@ class AbstractTAP(AbstractScriptedAgent):
         :type timestep: int
         :rtype bool
         """
-        if self.history[timestep].response.status != "success":
+        if timestep < len(self.history) and self.history[timestep].response.status != "success":
             self.logger.info(
                 f"{self.config.ref} has failed to successfully carry out {self.current_kill_chain_stage.name}"
             )
